@@ -76,12 +76,20 @@ def _is_pams_file(filename: str) -> bool:
     return os.path.abspath(filename).startswith(os.path.join(os.path.abspath(REPO_DIR), "pams") + os.sep)
 
 
+def _is_harness_file(filename: str) -> bool:
+    return os.path.abspath(filename).startswith(os.path.abspath(VERIF_DIR) + os.sep)
+
+
 def classify_exception(exc: BaseException) -> Optional[PamsCrash]:
-    """an exception escaping a call into pams is a pams crash iff the innermost frame is pams code
-    (an exception raised inside one of the harness' own agent / event / logger classes is a harness error)."""
+    """an exception escaping a call into pams is a pams crash iff, walking from the innermost frame outwards and skipping
+    library frames (numpy, scipy, the standard library), the first frame met is pams code.  If it is one of the harness'
+    own files (its agent / event / logger classes, its models) the exception is a harness error instead."""
     crash = PamsCrash(exc)
-    if crash.innermost_is_pams:
-        return crash
+    for filename, _, _ in reversed(crash.frames):
+        if _is_pams_file(filename):
+            return crash
+        if _is_harness_file(filename):
+            return None
     return None
 
 
